@@ -120,12 +120,14 @@ package collector
 //@ func container/heap.Init(h)
 //@   props C09
 //@   trusted
+//@   applies h *collectStoreHeap
 //@   modifies heapOK, elems(ptr(collectStoreHeap, iref(h)).heap)
 //@   effect heapOK == old(heapOK)[iref(h) := true]
 
 //@ func container/heap.Push(h, x)
 //@   props C09
 //@   trusted
+//@   applies h *collectStoreHeap
 //@   requires [heap-ordered] heapOK[iref(h)]
 //@   modifies ptr(collectStoreHeap, iref(h)).heap, elems(ptr(collectStoreHeap, iref(h)).heap)
 //@   ensures len(ptr(collectStoreHeap, iref(h)).heap) == old(len(ptr(collectStoreHeap, iref(h)).heap)) + 1
@@ -134,6 +136,7 @@ package collector
 //@ func container/heap.Pop(h) (r)
 //@   props C09
 //@   trusted
+//@   applies h *collectStoreHeap
 //@   requires [heap-ordered] heapOK[iref(h)]
 //@   requires [not-empty] len(ptr(collectStoreHeap, iref(h)).heap) > 0
 //@   modifies ptr(collectStoreHeap, iref(h)).heap, elems(ptr(collectStoreHeap, iref(h)).heap)
